@@ -44,6 +44,8 @@ func verifPairs() []verifPair {
 		{"flagged-on", "flagged {\n  on = true\n  extra = \"x\"\n}\n", "{ \"flagged\": { \"on\": true, \"extra\": \"x\" } }\n", 2},
 		{"data-arn", "data \"d\" {\n  arn = var.v\n  id = \"i\"\n}\n", "{ \"data\": { \"d\": { \"arn\": \"${var.v}\", \"id\": \"i\" } } }\n", 2},
 		{"amapt-interpolated-key", "amapt = { (var.v) = \"x\", k = var.v }\n", "{ \"amapt\": { \"${var.v}\": \"x\", \"k\": \"${var.v}\" } }\n", 2},
+		{"res-rule-dynamic", "res \"aws\" \"a\" {\n  rule {\n    dynamic \"action\" {\n      for_each = [ 1 ]\n      content {\n      }\n    }\n  }\n}\n",
+			"{ \"res\": { \"aws\": { \"a\": { \"rule\": { \"dynamic\": { \"action\": { \"for_each\": [ 1 ], \"content\": { } } } } } } } }\n", 2},
 		{"mixed", "top = \"t\"\nvariable \"v\" {\n  type = number\n}\nout \"o\" {\n  value = var.v\n}\n",
 			"{ \"top\": \"t\", \"variable\": { \"v\": { \"type\": \"number\" } }, \"out\": { \"o\": { \"value\": \"${ var.v }\" } } }\n", 2},
 	}
